@@ -14,7 +14,7 @@ EXPLANATION = ("speriodogram, Periodogram and CORRELOGRAMPSD (through the real W
 BOUNDS = {
     "quick": "N in 1..4, NFFT in {N..8} (subset incl. odd/prime 5,7 and powers of two), real and complex, 1-D; 2-D (N x 2) for N=2,3; "
              "windows: rectangular, hann + 4 chosen by VERIF_SEED; function and class form; Wiener-Khinchin N in 2..3, NFFT in {2N-1, 8}",
-    "thorough": "N in 1..4, every NFFT in N..8, all 29 window names, 1-D and 2-D; Wiener-Khinchin N in 2..4, NFFT in 2N-1..8",
+    "thorough": "N in 1..4, every NFFT in N..8, plus (N,NFFT) in {(5,5),(5,6),(5,8),(5,12),(6,6),(6,8),(6,12),(4,9),(4,10),(4,12)}, all 29 window names, 1-D and 2-D; Wiener-Khinchin N in 2..4, NFFT in 2N-1..8",
 }
 ASSUMPTIONS = ["floats modelled as exact reals", "numpy.fft.(r)fft = DFT definition (stub with exact twiddles)",
                "window samples enter as the exact rational value of the floats the real window code returns",
@@ -129,7 +129,7 @@ def cases(tier, seed):
         grid = [(1, 1), (1, 2), (2, 2), (2, 3), (2, 5), (3, 3), (3, 4), (3, 8), (4, 4), (4, 6), (4, 7)]
     else:
         wins = ALL_WINDOWS
-        grid = [(N, n) for N in range(1, 5) for n in range(N, 9)]
+        grid = [(N, n) for N in range(1, 5) for n in range(N, 9)] + [(5, 5), (5, 6), (5, 8), (5, 12), (6, 6), (6, 8), (6, 12), (4, 9), (4, 10), (4, 12)]
     for (N, n) in grid:
         for cplx in (False, True):
             tag = 'cx' if cplx else 're'
